@@ -11,14 +11,15 @@ POLS = ["prio", "rr", "rev"]
 def run(tier, rep):
     sd = seed()
     members, fam_size = family_slice(tier, quick_mod=48)
-    drivers = [EPISODE, [["run"]] * 4 + [["stop"]], [["reset"], ["step"], ["step_override"], ["step"], ["step_override"], ["stop"]]]
-    fam_jobs = [(n, dict(spec=s, user=drivers[(i + sd) % 3], policy=POLS[(i // 3 + sd) % 3])) for i, (n, s) in enumerate(members)]
+    drivers = [EPISODE, [["run"]] * 4 + [["stop"]], [["reset"], ["step"], ["step_override"], ["step"], ["step_override"], ["stop"]],
+               [["reset"], ["step"], ["step"], ["stop"], ["reset_carry"], ["step"], ["step"], ["stop"]]]
+    fam_jobs = [(n, dict(spec=s, user=drivers[(i + sd) % 4], policy=POLS[(i // 3 + sd) % 3])) for i, (n, s) in enumerate(members)]
     deep = {}
     hs = {"L1": H.L1(16, 16), "L2": H.L2(16, 8), "H3": H.H3((1, 6))}
     if tier == "thorough":
         hs.update({"H1": H.H1((1, 6)), "H4": H.H4((1, 6)), "L0": H.L0()})
     users = {"Rss.": [["reset"], ["step"], ["step"], ["stop"]], "rr.": [["run"], ["run"], ["stop"]], "Ros.": [["reset"], ["step_override"], ["step"], ["stop"]],
-             "Rs.Rs.": [["reset"], ["step"], ["stop"], ["reset"], ["step"], ["stop"]]}
+             "Rs.Rs.": [["reset"], ["step"], ["stop"], ["reset"], ["step"], ["stop"]], "Rs.Cs.": [["reset"], ["step"], ["stop"], ["reset_carry"], ["step"], ["stop"]]}
     for hn, sp in hs.items():
         for pol in POLS:
             for un, u in users.items():
@@ -39,7 +40,7 @@ def run(tier, rep):
         from vf.props import c06_compiled
 
         c06_compiled.run(tier, rep, pool)
-    rep.section("family", dyadic_family_size=fam_size, members_run=len(fam_jobs), drivers=["reset/step", "run", "reset/step with overrides"])
+    rep.section("family", dyadic_family_size=fam_size, members_run=len(fam_jobs), drivers=["reset/step", "run", "reset/step with overrides", "second episode reset from the carried-over graph state"])
     for n, j in fam_jobs[:2]:
         rep.sample(dict(member=n, spec=j["spec"], user=j["user"]))
     if tier == "quick":
